@@ -85,7 +85,7 @@ func init() {
 // Fault is one injected fault of one actor: at the actor's K-th client call.
 type Fault struct {
 	K    int    `json:"k"`
-	Mode string `json:"mode"`          // "error": call K fails, nothing applied; "crash": fail-stop from call K on (all actors); "mute": watch K opens but never delivers an index
+	Mode string `json:"mode"`          // "error": call K fails, nothing applied; "crash": fail-stop from call K on (all actors); "mute": watch K opens but never delivers an index; "lost": call K is applied but reports a time-out (outside the fixed fault model: observation only)
 	Err  string `json:"err,omitempty"` // error: internal|conflict|timeout|unavailable ; mute: closed|errorevent
 }
 
@@ -369,6 +369,9 @@ func (s *Sim) pre(verb, kind, key, sub string, mut bool) (idx int, muted string,
 				c.Injected, c.Err = "crash", ErrCrashed.Error()
 				s.crashed = true
 				err = ErrCrashed
+			case "lost":
+				// the call is applied but its reply is lost (post turns a success into a time-out)
+				c.Injected = "lost"
 			case "mute":
 				if verb == "watch" {
 					c.Injected = "mute"
@@ -385,6 +388,14 @@ func (s *Sim) pre(verb, kind, key, sub string, mut bool) (idx int, muted string,
 }
 
 func (s *Sim) post(idx int, err error) error {
+	if err == nil {
+		s.mu.Lock()
+		lost := idx < len(s.calls) && s.calls[idx].Injected == "lost"
+		s.mu.Unlock()
+		if lost {
+			err = apierrors.NewTimeoutError("verif: reply lost (the call was applied)", 1)
+		}
+	}
 	if err != nil {
 		s.mu.Lock()
 		if idx < len(s.calls) {
